@@ -84,56 +84,79 @@ def PrevoteGuardX (env : Env) (m : Machine) : Option Val → Prop
          m.vc.hasQuorumForVote p.validRound .prevote (some v) = true ∧
          (m.state.lockedRound ≤ p.validRound ∨ m.state.lockedValue = some v)))
 
-inductive XMicro (env : Env) : Machine → List Action → Machine → Prop
+/-- A change of the vote counter caused by a message handed to the machine. -/
+inductive VCChange
+  | vote (v : Vote) (t : VoteType)
+  | proposal (p : Proposal)
+  | futureQ (h : Height) (r : Round) (id : Option Val)
+
+def VCChange.apply (env : Env) (vc : VoteCounter) : VCChange → VoteCounter
+  | .vote v t => (vc.addVote env v t).1
+  | .proposal p => (vc.addProposal env p).1
+  | .futureQ h r id => (vc.hasFuturePrecommitQuorum h r id).1
+
+/-- `A`: the messages the environment may hand to the machine in this step. -/
+inductive XMicro (env : Env) (A : VCChange → Prop) : Machine → List Action → Machine → Prop
   | silent (m m' : Machine) (acts : List Action) :
-      m'.core = m.core → m'.nodeAddr = m.nodeAddr → (∀ a ∈ acts, silentAct a) → XMicro env m acts m'
+      m'.core = m.core → m'.nodeAddr = m.nodeAddr → m'.vc = m.vc → (∀ a ∈ acts, silentAct a) →
+      XMicro env A m acts m'
+  /-- a received message is stored in the vote counter (nothing else changes) -/
+  | recv (m m' : Machine) (c : VCChange) :
+      A c → m'.core = m.core → m'.nodeAddr = m.nodeAddr → m'.vc = c.apply env m.vc → XMicro env A m [] m'
   | propose (m m' : Machine) (p : Proposal) :
-      m'.core = m.core → m'.nodeAddr = m.nodeAddr → p.height = m.state.height → p.round = m.state.round →
-      p.sender = m.nodeAddr → XMicro env m [.bcastProposal p] m'
+      m'.core = m.core → m'.nodeAddr = m.nodeAddr → m'.vc = (m.vc.addProposal env p).1 →
+      p.height = m.state.height → p.round = m.state.round →
+      p.sender = m.nodeAddr → XMicro env A m [.bcastProposal p] m'
   | start (m m' : Machine) (r : Round) :
-      m.isHeightStarted = false → m'.nodeAddr = m.nodeAddr →
-      m'.core = { m.core with started := true, round := r, step := .propose } → XMicro env m [] m'
+      m.isHeightStarted = false → 0 ≤ r → m'.nodeAddr = m.nodeAddr → m'.vc = m.vc →
+      m'.core = { m.core with started := true, round := r, step := .propose } → XMicro env A m [] m'
   | newRound (m m' : Machine) (r : Round) :
-      m.state.round < r → m'.nodeAddr = m.nodeAddr →
-      m'.core = { m.core with round := r, step := .propose } → XMicro env m [] m'
+      m.state.round < r → m'.nodeAddr = m.nodeAddr → m'.vc = m.vc →
+      m'.core = { m.core with round := r, step := .propose } → XMicro env A m [] m'
   | prevote (m m' : Machine) (id : Option Val) :
       m.state.step = .propose → PrevoteGuardX env m id → m'.nodeAddr = m.nodeAddr →
+      m'.vc = (m.vc.addVote env ⟨m.state.height, m.state.round, m.nodeAddr, id⟩ .prevote).1 →
       m'.core = { m.core with step := .prevote } →
-      XMicro env m [.bcastPrevote ⟨m.state.height, m.state.round, m.nodeAddr, id⟩] m'
+      XMicro env A m [.bcastPrevote ⟨m.state.height, m.state.round, m.nodeAddr, id⟩] m'
   | precommitNil (m m' : Machine) :
       m.state.step = .prevote → m'.nodeAddr = m.nodeAddr →
+      m'.vc = (m.vc.addVote env ⟨m.state.height, m.state.round, m.nodeAddr, none⟩ .precommit).1 →
       m'.core = { m.core with step := .precommit } →
-      XMicro env m [.bcastPrecommit ⟨m.state.height, m.state.round, m.nodeAddr, none⟩] m'
+      XMicro env A m [.bcastPrecommit ⟨m.state.height, m.state.round, m.nodeAddr, none⟩] m'
   | precommitValue (m m' : Machine) (v : Val) :
       m.state.step = .prevote →
       (∃ p, m.vc.getProposal m.state.round = some p ∧ p.value = v ∧ env.valid v = true) →
       m.vc.hasQuorumForVote m.state.round .prevote (some v) = true → m'.nodeAddr = m.nodeAddr →
+      m'.vc = (m.vc.addVote env ⟨m.state.height, m.state.round, m.nodeAddr, some v⟩ .precommit).1 →
       m'.core = { m.core with step := .precommit, lockedValue := some v, lockedRound := m.state.round } →
-      XMicro env m [.bcastPrecommit ⟨m.state.height, m.state.round, m.nodeAddr, some v⟩] m'
+      XMicro env A m [.bcastPrecommit ⟨m.state.height, m.state.round, m.nodeAddr, some v⟩] m'
   | commit (m m' : Machine) (p : Proposal) :
       m.vc.getProposal p.round = some p → env.valid p.value = true →
       m.vc.hasQuorumForVote p.round .precommit (some p.value) = true →
       p.height = m.state.height → p.sender = env.proposer p.height p.round → m'.nodeAddr = m.nodeAddr →
+      m'.vc = m.vc.startNewHeight env →
       m'.core = ⟨m.state.height + 1, false, 0, .propose, none, -1⟩ →
-      XMicro env m [.commit p] m'
+      XMicro env A m [.commit p] m'
 
 /-- Side condition of a disciplined micro-step: the Tendermint variables are untouched, or the
 height is started before or after it (rules only fire for a started height; `ProcessStart` starts it). -/
 def SC (m m1 : Machine) : Prop :=
   m1.core = m.core ∨ m.isHeightStarted = true ∨ m1.isHeightStarted = true
 
-inductive XChain (env : Env) : Machine → List Action → Machine → Prop
-  | nil (m : Machine) : XChain env m [] m
+inductive XChain (env : Env) (A : VCChange → Prop) : Machine → List Action → Machine → Prop
+  | nil (m : Machine) : XChain env A m [] m
   | cons {m m1 m2 : Machine} {a as : List Action} :
-      XMicro env m a m1 → SC m m1 → XChain env m1 as m2 → XChain env m (a ++ as) m2
+      XMicro env A m a m1 → SC m m1 → XChain env A m1 as m2 → XChain env A m (a ++ as) m2
 
-theorem XChain.one {env : Env} {m m' : Machine} {a : List Action} (h : XMicro env m a m') (sc : SC m m') :
-    XChain env m a m' := by
+variable {A : VCChange → Prop}
+
+theorem XChain.one {env : Env} {m m' : Machine} {a : List Action} (h : XMicro env A m a m') (sc : SC m m') :
+    XChain env A m a m' := by
   have := XChain.cons h sc (XChain.nil m')
   simpa using this
 
 theorem XChain.append {env : Env} {m m1 m2 : Machine} {a b : List Action}
-    (h1 : XChain env m a m1) (h2 : XChain env m1 b m2) : XChain env m (a ++ b) m2 := by
+    (h1 : XChain env A m a m1) (h2 : XChain env A m1 b m2) : XChain env A m (a ++ b) m2 := by
   induction h1 with
   | nil => simpa using h2
   | cons hm sc _ ih => rw [List.append_assoc]; exact XChain.cons hm sc (ih h2)
@@ -160,13 +183,17 @@ theorem lockedIs_iff (s : State) (v : Val) : lockedIs s v = true ↔ s.lockedVal
 theorem sendPrevote_core (env : Env) (m : Machine) (id : Option Val) :
     (m.setStepAndSendPrevote env id).1.core = { m.core with step := .prevote } ∧
     (m.setStepAndSendPrevote env id).1.nodeAddr = m.nodeAddr ∧
-    (m.setStepAndSendPrevote env id).2 = .bcastPrevote ⟨m.state.height, m.state.round, m.nodeAddr, id⟩ := by
+    (m.setStepAndSendPrevote env id).2 = .bcastPrevote ⟨m.state.height, m.state.round, m.nodeAddr, id⟩ ∧
+    (m.setStepAndSendPrevote env id).1.vc =
+      (m.vc.addVote env ⟨m.state.height, m.state.round, m.nodeAddr, id⟩ .prevote).1 := by
   simp [Machine.setStepAndSendPrevote, Machine.core]
 
 theorem sendPrecommit_core (env : Env) (m : Machine) (id : Option Val) :
     (m.setStepAndSendPrecommit env id).1.core = { m.core with step := .precommit } ∧
     (m.setStepAndSendPrecommit env id).1.nodeAddr = m.nodeAddr ∧
-    (m.setStepAndSendPrecommit env id).2 = .bcastPrecommit ⟨m.state.height, m.state.round, m.nodeAddr, id⟩ := by
+    (m.setStepAndSendPrecommit env id).2 = .bcastPrecommit ⟨m.state.height, m.state.round, m.nodeAddr, id⟩ ∧
+    (m.setStepAndSendPrecommit env id).1.vc =
+      (m.vc.addVote env ⟨m.state.height, m.state.round, m.nodeAddr, id⟩ .precommit).1 := by
   simp [Machine.setStepAndSendPrecommit, Machine.core]
 
 theorem sendPrevote_inv (env : Env) (m : Machine) (id : Option Val) (hi : MInv env m) :
@@ -189,43 +216,43 @@ theorem resetState_inv (env : Env) (m : Machine) (r : Round) (hi : MInv env m) :
   ⟨hi.vc, hi.cur⟩
 
 theorem sendProposal_spec (env : Env) (m : Machine) (v : Val) (hi : MInv env m) :
-    XMicro env m [(m.sendProposal env v).2] (m.sendProposal env v).1 ∧ MInv env (m.sendProposal env v).1 := by
+    XMicro env A m [(m.sendProposal env v).2] (m.sendProposal env v).1 ∧ MInv env (m.sendProposal env v).1 := by
   have := addProposal_inv env m.vc ⟨m.state.height, m.state.round, m.nodeAddr, m.state.validRound, v⟩ hi.vc
   constructor
-  · exact XMicro.propose m _ _ (by simp [Machine.sendProposal, Machine.core]) (by simp [Machine.sendProposal]) rfl rfl rfl
+  · exact XMicro.propose m _ _ (by simp [Machine.sendProposal, Machine.core]) (by simp [Machine.sendProposal]) rfl rfl rfl rfl
   · exact ⟨this.1, by simp [Machine.sendProposal]; rw [this.2.1]; exact hi.cur⟩
 
 /-- `startRound` after the round variables were reset: one proposal or one scheduled timeout. -/
 theorem startRound_tail (env : Env) (m : Machine) (r : Round) (hi : MInv env m) :
-    XMicro env (m.resetState r) [(m.startRound env r).2] (m.startRound env r).1 ∧
+    XMicro env A (m.resetState r) [(m.startRound env r).2] (m.startRound env r).1 ∧
     MInv env (m.startRound env r).1 := by
   unfold Machine.startRound
   simp only
   have hri := resetState_inv env m r hi
   split
   · split
-    · exact sendProposal_spec env _ _ hri
+    · exact sendProposal_spec (A := A) env _ _ hri
     · have h2 : MInv env { m.resetState r with valueCalls := (m.resetState r).valueCalls + 1 } := ⟨hri.vc, hri.cur⟩
-      have := sendProposal_spec env { m.resetState r with valueCalls := (m.resetState r).valueCalls + 1 }
+      have := sendProposal_spec (A := A) env { m.resetState r with valueCalls := (m.resetState r).valueCalls + 1 }
         (env.appValue (m.resetState r).valueCalls) h2
       refine ⟨?_, this.2⟩
-      exact XMicro.propose _ _ _ (by simp [Machine.sendProposal, Machine.core]) (by simp [Machine.sendProposal]) rfl rfl rfl
-  · exact ⟨XMicro.silent _ _ _ rfl rfl (by intro a ha; simp at ha; subst ha; trivial), hri⟩
+      exact XMicro.propose _ _ _ (by simp [Machine.sendProposal, Machine.core]) (by simp [Machine.sendProposal]) (by simp [Machine.sendProposal]) rfl rfl rfl
+  · exact ⟨XMicro.silent _ _ _ rfl rfl rfl (by intro a ha; simp at ha; subst ha; trivial), hri⟩
 
 theorem startRound_chain (env : Env) (m : Machine) (r : Round) (hlt : m.state.round < r)
     (hs : m.isHeightStarted = true) (hi : MInv env m) :
-    XChain env m [(m.startRound env r).2] (m.startRound env r).1 ∧ MInv env (m.startRound env r).1 := by
-  have ht := startRound_tail env m r hi
+    XChain env A m [(m.startRound env r).2] (m.startRound env r).1 ∧ MInv env (m.startRound env r).1 := by
+  have ht := startRound_tail (A := A) env m r hi
   have hr := resetState_core m r
   refine ⟨?_, ht.2⟩
-  have h1 : XMicro env m [] (m.resetState r) := XMicro.newRound m _ r hlt hr.2.1 hr.1
+  have h1 : XMicro env A m [] (m.resetState r) := XMicro.newRound m _ r hlt hr.2.1 hr.2.2.1 hr.1
   exact XChain.cons h1 (SC.started hs) (XChain.one ht.1 (SC.started (by simpa [Machine.resetState] using hs)))
 
 theorem step_beq (a b : Step) : (a == b) = true ↔ a = b := by simp
 
 theorem doFirstProposal_spec (env : Env) (m : Machine) (cp : CachedProposal)
     (hf : m.findProposal env m.state.round = some cp) (hu : m.uponFirstProposal cp = true) (hi : MInv env m) :
-    XMicro env m [(m.doFirstProposal env cp).2] (m.doFirstProposal env cp).1 ∧
+    XMicro env A m [(m.doFirstProposal env cp).2] (m.doFirstProposal env cp).1 ∧
     MInv env (m.doFirstProposal env cp).1 := by
   obtain ⟨hg, hv, hid⟩ := findProposal_some env m _ cp hf
   unfold Machine.uponFirstProposal at hu
@@ -234,8 +261,8 @@ theorem doFirstProposal_spec (env : Env) (m : Machine) (cp : CachedProposal)
   simp only
   refine ⟨?_, sendPrevote_inv env m _ hi⟩
   have hc := sendPrevote_core env m (if (cp.valid && (m.state.lockedRound == -1 || lockedIs m.state cp.id)) = true then some cp.id else none)
-  rw [hc.2.2]
-  refine XMicro.prevote m _ _ hu.2 ?_ hc.2.1 hc.1
+  rw [hc.2.2.1]
+  refine XMicro.prevote m _ _ hu.2 ?_ hc.2.1 hc.2.2.2 hc.1
   split
   · rename_i hs
     simp only [Bool.and_eq_true, Bool.or_eq_true, beq_iff_eq, lockedIs_iff] at hs
@@ -246,7 +273,7 @@ theorem doFirstProposal_spec (env : Env) (m : Machine) (cp : CachedProposal)
 theorem doPolkaPrevious_spec (env : Env) (m : Machine) (cp : CachedProposal)
     (hf : m.findProposal env m.state.round = some cp) (hu : m.uponProposalAndPolkaPrevious cp = true)
     (hi : MInv env m) :
-    XMicro env m [(m.doProposalAndPolkaPrevious env cp).2] (m.doProposalAndPolkaPrevious env cp).1 ∧
+    XMicro env A m [(m.doProposalAndPolkaPrevious env cp).2] (m.doProposalAndPolkaPrevious env cp).1 ∧
     MInv env (m.doProposalAndPolkaPrevious env cp).1 := by
   obtain ⟨hg, hv, hid⟩ := findProposal_some env m _ cp hf
   unfold Machine.uponProposalAndPolkaPrevious at hu
@@ -256,8 +283,8 @@ theorem doPolkaPrevious_spec (env : Env) (m : Machine) (cp : CachedProposal)
   simp only
   refine ⟨?_, sendPrevote_inv env m _ hi⟩
   have hc := sendPrevote_core env m (if (cp.valid && (decide (m.state.lockedRound ≤ cp.proposal.validRound) || lockedIs m.state cp.id)) = true then some cp.id else none)
-  rw [hc.2.2]
-  refine XMicro.prevote m _ _ hst ?_ hc.2.1 hc.1
+  rw [hc.2.2.1]
+  refine XMicro.prevote m _ _ hst ?_ hc.2.1 hc.2.2.2 hc.1
   split
   · rename_i hs
     simp only [Bool.and_eq_true, Bool.or_eq_true, decide_eq_true_eq, lockedIs_iff] at hs
@@ -268,7 +295,7 @@ theorem doPolkaPrevious_spec (env : Env) (m : Machine) (cp : CachedProposal)
 theorem doPolkaCurrent_spec (env : Env) (m : Machine) (cp : CachedProposal)
     (hf : m.findProposal env m.state.round = some cp) (hu : m.uponProposalAndPolkaCurrent cp = true)
     (hi : MInv env m) :
-    XMicro env m (m.doProposalAndPolkaCurrent env cp).2.toList (m.doProposalAndPolkaCurrent env cp).1 ∧
+    XMicro env A m (m.doProposalAndPolkaCurrent env cp).2.toList (m.doProposalAndPolkaCurrent env cp).1 ∧
     MInv env (m.doProposalAndPolkaCurrent env cp).1 := by
   obtain ⟨hg, hv, hid⟩ := findProposal_some env m _ cp hf
   unfold Machine.uponProposalAndPolkaCurrent at hu
@@ -279,7 +306,7 @@ theorem doPolkaCurrent_spec (env : Env) (m : Machine) (cp : CachedProposal)
   · simp only [hst, beq_self_eq_true, if_true]
     constructor
     · simp only [Option.toList]
-      have := XMicro.precommitValue (env := env) m
+      have := XMicro.precommitValue (env := env) (A := A) m
         ({ (Machine.setStepAndSendPrecommit env { m with state := { m.state with lockedValue := some cp.proposal.value, lockedRound := m.state.round } } (some cp.id)).1 with
             state := { (Machine.setStepAndSendPrecommit env { m with state := { m.state with lockedValue := some cp.proposal.value, lockedRound := m.state.round } } (some cp.id)).1.state with
               validValue := some cp.proposal.value,
@@ -287,6 +314,7 @@ theorem doPolkaCurrent_spec (env : Env) (m : Machine) (cp : CachedProposal)
               lockedValueAndOrValidValueSet := true } })
         cp.id hst ⟨cp.proposal, hg, hid.symm, by rw [hid, ← hv]; exact hval⟩ hq
         (by simp [Machine.setStepAndSendPrecommit])
+        (by simp [Machine.setStepAndSendPrecommit, hid])
         (by simp [Machine.setStepAndSendPrecommit, Machine.core, hid])
       simpa [Machine.setStepAndSendPrecommit] using this
     · have h0 : MInv env { m with state := { m.state with lockedValue := some cp.proposal.value, lockedRound := m.state.round } } := ⟨hi.vc, hi.cur⟩
@@ -294,34 +322,34 @@ theorem doPolkaCurrent_spec (env : Env) (m : Machine) (cp : CachedProposal)
       exact ⟨h1.vc, h1.cur⟩
   · have hne : (m.state.step == Step.prevote) = false := by simp [hst]
     simp only [hne]
-    exact ⟨XMicro.silent _ _ _ (by simp [Machine.core]) rfl (by intro a ha; simp at ha), ⟨hi.vc, hi.cur⟩⟩
+    exact ⟨XMicro.silent _ _ _ (by simp [Machine.core]) rfl rfl (by intro a ha; simp at ha), ⟨hi.vc, hi.cur⟩⟩
 
 
 theorem doPolkaAny_spec (env : Env) (m : Machine) (hi : MInv env m) :
-    XMicro env m [m.doPolkaAny.2] m.doPolkaAny.1 ∧ MInv env m.doPolkaAny.1 :=
-  ⟨XMicro.silent _ _ _ (by simp [Machine.doPolkaAny, Machine.core]) rfl
+    XMicro env A m [m.doPolkaAny.2] m.doPolkaAny.1 ∧ MInv env m.doPolkaAny.1 :=
+  ⟨XMicro.silent _ _ _ (by simp [Machine.doPolkaAny, Machine.core]) rfl rfl
     (by intro a ha; simp [Machine.doPolkaAny, Machine.scheduleTimeout] at ha; subst ha; trivial),
    ⟨hi.vc, hi.cur⟩⟩
 
 theorem doPrecommitAny_spec (env : Env) (m : Machine) (hi : MInv env m) :
-    XMicro env m [m.doPrecommitAny.2] m.doPrecommitAny.1 ∧ MInv env m.doPrecommitAny.1 :=
-  ⟨XMicro.silent _ _ _ (by simp [Machine.doPrecommitAny, Machine.core]) rfl
+    XMicro env A m [m.doPrecommitAny.2] m.doPrecommitAny.1 ∧ MInv env m.doPrecommitAny.1 :=
+  ⟨XMicro.silent _ _ _ (by simp [Machine.doPrecommitAny, Machine.core]) rfl rfl
     (by intro a ha; simp [Machine.doPrecommitAny, Machine.scheduleTimeout] at ha; subst ha; trivial),
    ⟨hi.vc, hi.cur⟩⟩
 
 theorem doPolkaNil_spec (env : Env) (m : Machine) (hu : m.uponPolkaNil = true) (hi : MInv env m) :
-    XMicro env m [(m.doPolkaNil env).2] (m.doPolkaNil env).1 ∧ MInv env (m.doPolkaNil env).1 := by
+    XMicro env A m [(m.doPolkaNil env).2] (m.doPolkaNil env).1 ∧ MInv env (m.doPolkaNil env).1 := by
   unfold Machine.uponPolkaNil at hu
   simp only [Bool.and_eq_true, beq_iff_eq] at hu
   unfold Machine.doPolkaNil
   have hc := sendPrecommit_core env m none
   refine ⟨?_, sendPrecommit_inv env m none hi⟩
-  rw [hc.2.2]
-  exact XMicro.precommitNil m _ hu.2 hc.2.1 hc.1
+  rw [hc.2.2.1]
+  exact XMicro.precommitNil m _ hu.2 hc.2.1 hc.2.2.2 hc.1
 
 theorem doCommitValue_spec (env : Env) (m : Machine) (cp : CachedProposal)
     (hf : ∃ r, m.findProposal env r = some cp) (hu : m.uponCommitValue cp = true) (hi : MInv env m) :
-    XMicro env m [(m.doCommitValue env cp).2] (m.doCommitValue env cp).1 ∧
+    XMicro env A m [(m.doCommitValue env cp).2] (m.doCommitValue env cp).1 ∧
     MInv env (m.doCommitValue env cp).1 := by
   obtain ⟨r, hf⟩ := hf
   obtain ⟨hg, hv, hid⟩ := findProposal_some env m _ cp hf
@@ -331,7 +359,8 @@ theorem doCommitValue_spec (env : Env) (m : Machine) (cp : CachedProposal)
   have hn := startNewHeight_inv env m.vc hi.vc
   constructor
   · refine XMicro.commit m _ cp.proposal (by rw [hr]; exact hg) (by rw [← hv]; exact hu.2)
-      (by rw [← hid]; exact hu.1) (by rw [hh]; exact hi.cur) (by rw [hh, hr]; exact hs) ?_ ?_
+      (by rw [← hid]; exact hu.1) (by rw [hh]; exact hi.cur) (by rw [hh, hr]; exact hs) ?_ ?_ ?_
+    · simp [Machine.doCommitValue]
     · simp [Machine.doCommitValue]
     · simp [Machine.doCommitValue, Machine.core, State.reset]
   · refine ⟨hn.1, ?_⟩
@@ -340,10 +369,10 @@ theorem doCommitValue_spec (env : Env) (m : Machine) (cp : CachedProposal)
 
 theorem doSkipRound_spec (env : Env) (m : Machine) (r : Round) (hu : m.uponSkipRound r = true)
     (hs : m.isHeightStarted = true) (hi : MInv env m) :
-    XChain env m [(m.doSkipRound env r).2] (m.doSkipRound env r).1 ∧ MInv env (m.doSkipRound env r).1 := by
+    XChain env A m [(m.doSkipRound env r).2] (m.doSkipRound env r).1 ∧ MInv env (m.doSkipRound env r).1 := by
   unfold Machine.uponSkipRound at hu
   simp only [Bool.and_eq_true, decide_eq_true_eq] at hu
-  exact startRound_chain env m r hu.1 hs hi
+  exact startRound_chain (A := A) env m r hu.1 hs hi
 
 theorem startRound_started (env : Env) (m : Machine) (r : Round) :
     (m.startRound env r).1.isHeightStarted = m.isHeightStarted := by
@@ -374,39 +403,39 @@ theorem process_started (env : Env) (m : Machine) (rr : Option Round) (hs : m.is
 /-- One evaluation of `process` (for a started height) is a chain of micro-steps. -/
 theorem process_chain (env : Env) (m : Machine) (rr : Option Round) (hs : m.isHeightStarted = true)
     (hi : MInv env m) :
-    XChain env m (m.process env rr).2.1.toList (m.process env rr).1 ∧ MInv env (m.process env rr).1 := by
+    XChain env A m (m.process env rr).2.1.toList (m.process env rr).1 ∧ MInv env (m.process env rr).1 := by
   have hsel := select_spec env m rr
   have sc : ∀ m1, SC m m1 := fun _ => SC.started hs
   unfold Machine.process
   split <;> rename_i heq <;> rw [heq] at hsel <;> simp only [SelSpec] at hsel
-  · have := doFirstProposal_spec env m _ hsel.1 hsel.2 hi
+  · have := doFirstProposal_spec (A := A) env m _ hsel.1 hsel.2 hi
     exact ⟨XChain.one this.1 (sc _), this.2⟩
-  · have := doPolkaPrevious_spec env m _ hsel.1 hsel.2 hi
+  · have := doPolkaPrevious_spec (A := A) env m _ hsel.1 hsel.2 hi
     exact ⟨XChain.one this.1 (sc _), this.2⟩
-  · have := doPolkaAny_spec env m hi
+  · have := doPolkaAny_spec (A := A) env m hi
     exact ⟨XChain.one this.1 (sc _), this.2⟩
-  · have := doPolkaCurrent_spec env m _ hsel.1 hsel.2 hi
+  · have := doPolkaCurrent_spec (A := A) env m _ hsel.1 hsel.2 hi
     exact ⟨XChain.one this.1 (sc _), this.2⟩
-  · have := doPolkaNil_spec env m hsel hi
+  · have := doPolkaNil_spec (A := A) env m hsel hi
     exact ⟨XChain.one this.1 (sc _), this.2⟩
-  · have := doPrecommitAny_spec env m hi
+  · have := doPrecommitAny_spec (A := A) env m hi
     exact ⟨XChain.one this.1 (sc _), this.2⟩
-  · have := doCommitValue_spec env m _ hsel.1 hsel.2 hi
+  · have := doCommitValue_spec (A := A) env m _ hsel.1 hsel.2 hi
     exact ⟨XChain.one this.1 (sc _), this.2⟩
-  · exact doSkipRound_spec env m _ hsel.2 hs hi
+  · exact doSkipRound_spec (A := A) env m _ hsel.2 hs hi
   · exact ⟨XChain.nil m, hi⟩
 
 theorem loop_chain (env : Env) (rr : Option Round) : ∀ (fuel : Nat) (m : Machine) (acc : List Action),
     m.isHeightStarted = true → MInv env m →
     ∃ out, (Machine.processLoopAux env rr fuel m acc).2.1 = acc ++ out ∧
-      XChain env m out (Machine.processLoopAux env rr fuel m acc).1 ∧
+      XChain env A m out (Machine.processLoopAux env rr fuel m acc).1 ∧
       MInv env (Machine.processLoopAux env rr fuel m acc).1 := by
   intro fuel
   induction fuel with
   | zero => intro m acc _ hi; exact ⟨[], by simp [Machine.processLoopAux], XChain.nil m, hi⟩
   | succ n ih =>
     intro m acc hs hi
-    have hp := process_chain env m rr hs hi
+    have hp := process_chain (A := A) env m rr hs hi
     have hst := process_started env m rr hs
     unfold Machine.processLoopAux
     generalize hpe : m.process env rr = res at hp hst
@@ -432,119 +461,130 @@ theorem loop_chain (env : Env) (rr : Option Round) : ∀ (fuel : Nat) (m : Machi
 
 theorem processLoop_chain (env : Env) (m : Machine) (acts : List Action) (rr : Option Round)
     (hs : m.isHeightStarted = true) (hi : MInv env m) :
-    ∃ out, (m.processLoop env acts rr).2 = acts ++ out ∧ XChain env m out (m.processLoop env acts rr).1 ∧
+    ∃ out, (m.processLoop env acts rr).2 = acts ++ out ∧ XChain env A m out (m.processLoop env acts rr).1 ∧
       MInv env (m.processLoop env acts rr).1 := by
   unfold Machine.processLoop
-  exact loop_chain env rr loopFuel m acts hs hi
+  exact loop_chain (A := A) env rr loopFuel m acts hs hi
 
-theorem silent_wal (env : Env) (m : Machine) (e : WalEntry) : XMicro env m [.writeWAL e] m :=
-  XMicro.silent m m _ rfl rfl (by intro a ha; simp at ha; subst ha; trivial)
+theorem silent_wal (env : Env) (m : Machine) (e : WalEntry) : XMicro env A m [.writeWAL e] m :=
+  XMicro.silent m m _ rfl rfl rfl (by intro a ha; simp at ha; subst ha; trivial)
 
 theorem processMessage_chain (env : Env) (m : Machine) (h : Height) (r : Round) (w : WalEntry)
     (hs : m.isHeightStarted = true) (hi : MInv env m) :
-    XChain env m (m.processMessage env h r w).2 (m.processMessage env h r w).1 ∧
+    XChain env A m (m.processMessage env h r w).2 (m.processMessage env h r w).1 ∧
       MInv env (m.processMessage env h r w).1 := by
   unfold Machine.processMessage
   split
-  · exact ⟨XChain.one (silent_wal env m w) (SC.same rfl), hi⟩
-  · obtain ⟨out, h1, h2, h3⟩ := processLoop_chain env m [.writeWAL w] (some r) hs hi
+  · exact ⟨XChain.one (silent_wal (A := A) env m w) (SC.same rfl), hi⟩
+  · obtain ⟨out, h1, h2, h3⟩ := processLoop_chain (A := A) env m [.writeWAL w] (some r) hs hi
     rw [h1]
-    exact ⟨XChain.cons (silent_wal env m w) (SC.same rfl) h2, h3⟩
+    exact ⟨XChain.cons (silent_wal (A := A) env m w) (SC.same rfl) h2, h3⟩
 
-theorem processStart_chain (env : Env) (m : Machine) (r : Round) (hi : MInv env m) :
-    XChain env m (m.processStart env r).2 (m.processStart env r).1 ∧ MInv env (m.processStart env r).1 := by
+theorem processStart_chain (env : Env) (m : Machine) (r : Round) (hr : 0 ≤ r) (hi : MInv env m) :
+    XChain env A m (m.processStart env r).2 (m.processStart env r).1 ∧ MInv env (m.processStart env r).1 := by
   unfold Machine.processStart
   split
   · exact ⟨XChain.nil m, hi⟩
   · rename_i hs
     simp only
     have hi0 : MInv env { m with isHeightStarted := true } := ⟨hi.vc, hi.cur⟩
-    have ht := startRound_tail env { m with isHeightStarted := true } r hi0
+    have ht := startRound_tail (A := A) env { m with isHeightStarted := true } r hi0
     have hst : (Machine.startRound env { m with isHeightStarted := true } r).1.isHeightStarted = true := by
       rw [startRound_started]
-    obtain ⟨out, h1, h2, h3⟩ := processLoop_chain env _ [(Machine.startRound env { m with isHeightStarted := true } r).2] none hst ht.2
+    obtain ⟨out, h1, h2, h3⟩ := processLoop_chain (A := A) env _ [(Machine.startRound env { m with isHeightStarted := true } r).2] none hst ht.2
     rw [h1]
     refine ⟨?_, h3⟩
-    have hstart : XMicro env m [] (Machine.resetState { m with isHeightStarted := true } r) :=
-      XMicro.start m _ r (by simpa using hs) (by simp [Machine.resetState])
+    have hstart : XMicro env A m [] (Machine.resetState { m with isHeightStarted := true } r) :=
+      XMicro.start m _ r (by simpa using hs) hr (by simp [Machine.resetState]) (by simp [Machine.resetState])
         (by simp [Machine.resetState, State.reset, Machine.core])
-    have hw := silent_wal env m (.start (Machine.processLoop env (Machine.startRound env { m with isHeightStarted := true } r).1
+    have hw := silent_wal (A := A) env m (.start (Machine.processLoop env (Machine.startRound env { m with isHeightStarted := true } r).1
         [(Machine.startRound env { m with isHeightStarted := true } r).2] none).1.state.height)
     have := XChain.cons hw (SC.same rfl) (XChain.cons hstart (Or.inr (Or.inr (by simp [Machine.resetState])))
       (XChain.cons ht.1 (SC.started (by simp [Machine.resetState])) h2))
     simpa using this
 
-/-- replacing the vote counter (a received message was added) is a silent micro-step -/
-theorem silent_vc (env : Env) (m : Machine) (vc : VoteCounter) : XMicro env m [] { m with vc := vc } :=
-  XMicro.silent m _ [] rfl rfl (by intro a ha; cases ha)
+/-- storing a received message in the vote counter is a `recv` micro-step -/
+theorem recv_vc (env : Env) (m : Machine) (c : VCChange) (hA : A c) :
+    XMicro env A m [] { m with vc := c.apply env m.vc } :=
+  XMicro.recv m _ c hA rfl rfl rfl
 
 theorem started_of_not (ok s : Bool) (h : ¬ ((!ok || !s) = true)) : s = true := by
   cases ok <;> cases s <;> simp at h ⊢
 
-theorem processProposal_chain (env : Env) (m : Machine) (p : Proposal) (hi : MInv env m) :
-    XChain env m (m.processProposal env p).2 (m.processProposal env p).1 ∧
+theorem processProposal_chain (env : Env) (m : Machine) (p : Proposal) (hA : A (.proposal p)) (hi : MInv env m) :
+    XChain env A m (m.processProposal env p).2 (m.processProposal env p).1 ∧
       MInv env (m.processProposal env p).1 := by
   unfold Machine.processProposal
   have ha := addProposal_inv env m.vc p hi.vc
-  generalize m.vc.addProposal env p = res at ha
-  obtain ⟨vc, ok⟩ := res
-  simp only at ha ⊢
+  have hrecv := recv_vc (A := A) env m (.proposal p) hA
+  simp only [VCChange.apply] at hrecv
+  rcases hres : m.vc.addProposal env p with ⟨vc, ok⟩
+  rw [hres] at ha hrecv
+  simp only at ha hrecv ⊢
   have hi1 : MInv env { m with vc := vc } := ⟨ha.1, by show vc.cur = m.state.height; rw [ha.2.1]; exact hi.cur⟩
   split
-  · exact ⟨XChain.one (silent_vc env m vc) (SC.same rfl), hi1⟩
+  · exact ⟨XChain.one (hrecv) (SC.same rfl), hi1⟩
   · rename_i hc
-    have := processMessage_chain env { m with vc := vc } p.height p.round (.proposal p) (started_of_not _ _ hc) hi1
-    exact ⟨XChain.cons (silent_vc env m vc) (SC.same rfl) this.1, this.2⟩
+    have := processMessage_chain (A := A) env { m with vc := vc } p.height p.round (.proposal p) (started_of_not _ _ hc) hi1
+    exact ⟨XChain.cons (hrecv) (SC.same rfl) this.1, this.2⟩
 
-theorem processPrevote_chain (env : Env) (m : Machine) (v : Vote) (hi : MInv env m) :
-    XChain env m (m.processPrevote env v).2 (m.processPrevote env v).1 ∧
+theorem processPrevote_chain (env : Env) (m : Machine) (v : Vote) (hA : A (.vote v .prevote)) (hi : MInv env m) :
+    XChain env A m (m.processPrevote env v).2 (m.processPrevote env v).1 ∧
       MInv env (m.processPrevote env v).1 := by
   unfold Machine.processPrevote
   have ha := addVote_inv env m.vc v .prevote hi.vc
-  generalize m.vc.addVote env v .prevote = res at ha
-  obtain ⟨vc, ok⟩ := res
-  simp only at ha ⊢
+  have hrecv := recv_vc (A := A) env m (.vote v .prevote) hA
+  simp only [VCChange.apply] at hrecv
+  rcases hres : m.vc.addVote env v .prevote with ⟨vc, ok⟩
+  rw [hres] at ha hrecv
+  simp only at ha hrecv ⊢
   have hi1 : MInv env { m with vc := vc } := ⟨ha.1, by show vc.cur = m.state.height; rw [ha.2.1]; exact hi.cur⟩
   split
-  · exact ⟨XChain.one (silent_vc env m vc) (SC.same rfl), hi1⟩
+  · exact ⟨XChain.one (hrecv) (SC.same rfl), hi1⟩
   · rename_i hc
-    have := processMessage_chain env { m with vc := vc } v.height v.round (.prevote v) (started_of_not _ _ hc) hi1
-    exact ⟨XChain.cons (silent_vc env m vc) (SC.same rfl) this.1, this.2⟩
+    have := processMessage_chain (A := A) env { m with vc := vc } v.height v.round (.prevote v) (started_of_not _ _ hc) hi1
+    exact ⟨XChain.cons (hrecv) (SC.same rfl) this.1, this.2⟩
 
-theorem processPrecommit_chain (env : Env) (m : Machine) (v : Vote) (hi : MInv env m) :
-    XChain env m (m.processPrecommit env v).2 (m.processPrecommit env v).1 ∧
+theorem processPrecommit_chain (env : Env) (m : Machine) (v : Vote) (hA : A (.vote v .precommit))
+    (hA2 : A (.futureQ v.height v.round v.id)) (hi : MInv env m) :
+    XChain env A m (m.processPrecommit env v).2 (m.processPrecommit env v).1 ∧
       MInv env (m.processPrecommit env v).1 := by
   unfold Machine.processPrecommit
   have ha := addVote_inv env m.vc v .precommit hi.vc
-  generalize m.vc.addVote env v .precommit = res at ha
-  obtain ⟨vc, ok⟩ := res
-  simp only at ha ⊢
+  have hrecv := recv_vc (A := A) env m (.vote v .precommit) hA
+  simp only [VCChange.apply] at hrecv
+  rcases hres : m.vc.addVote env v .precommit with ⟨vc, ok⟩
+  rw [hres] at ha hrecv
+  simp only at ha hrecv ⊢
   have hi1 : MInv env { m with vc := vc } := ⟨ha.1, by show vc.cur = m.state.height; rw [ha.2.1]; exact hi.cur⟩
   split
-  · exact ⟨XChain.one (silent_vc env m vc) (SC.same rfl), hi1⟩
+  · exact ⟨XChain.one (hrecv) (SC.same rfl), hi1⟩
   · rename_i hc
     have hst := started_of_not _ _ hc
     split
     · have hf := hasFuturePrecommitQuorum_inv env vc v.height v.round v.id ha.1
-      generalize vc.hasFuturePrecommitQuorum v.height v.round v.id = res2 at hf
-      obtain ⟨vc2, fq⟩ := res2
-      simp only at hf ⊢
+      have hrecv2 := recv_vc (A := A) env { m with vc := vc } (.futureQ v.height v.round v.id) hA2
+      simp only [VCChange.apply] at hrecv2
+      rcases hres2 : vc.hasFuturePrecommitQuorum v.height v.round v.id with ⟨vc2, fq⟩
+      rw [hres2] at hf hrecv2
+      simp only at hf hrecv2 ⊢
       have hi2 : MInv env { m with vc := vc2 } :=
         ⟨hf.1, by show vc2.cur = m.state.height; rw [hf.2, ha.2.1]; exact hi.cur⟩
       split
       · refine ⟨?_, ⟨hi2.vc, hi2.cur⟩⟩
-        have h1 : XMicro env m [.triggerSync (max (m.lastTriggerSync + 1) m.state.height) (max m.lastQuorum v.height)]
+        have h1 : XMicro env A { m with vc := vc2 }
+            [.triggerSync (max (m.lastTriggerSync + 1) m.state.height) (max m.lastQuorum v.height)]
             { m with vc := vc2, lastQuorum := max m.lastQuorum v.height, lastTriggerSync := max m.lastQuorum v.height } :=
-          XMicro.silent m _ _ rfl rfl (by intro a ha; simp at ha; subst ha; trivial)
-        exact XChain.one h1 (SC.same rfl)
-      · have := processMessage_chain env { m with vc := vc2 } v.height v.round (.precommit v) hst hi2
-        exact ⟨XChain.cons (silent_vc env m vc2) (SC.same rfl) this.1, this.2⟩
-    · have := processMessage_chain env { m with vc := vc } v.height v.round (.precommit v) hst hi1
-      exact ⟨XChain.cons (silent_vc env m vc) (SC.same rfl) this.1, this.2⟩
+          XMicro.silent _ _ _ rfl rfl rfl (by intro a ha; simp at ha; subst ha; trivial)
+        exact XChain.cons hrecv (SC.same rfl) (XChain.cons hrecv2 (SC.same rfl) (XChain.one h1 (SC.same rfl)))
+      · have := processMessage_chain (A := A) env { m with vc := vc2 } v.height v.round (.precommit v) hst hi2
+        exact ⟨XChain.cons hrecv (SC.same rfl) (XChain.cons hrecv2 (SC.same rfl) this.1), this.2⟩
+    · have := processMessage_chain (A := A) env { m with vc := vc } v.height v.round (.precommit v) hst hi1
+      exact ⟨XChain.cons (hrecv) (SC.same rfl) this.1, this.2⟩
 
 theorem onTimeout_chain (env : Env) (m : Machine) (s : Step) (h : Height) (r : Round)
     (hs : m.isHeightStarted = true) (hi : MInv env m) :
-    XChain env m (m.onTimeout env s h r).2 (m.onTimeout env s h r).1 ∧ MInv env (m.onTimeout env s h r).1 ∧
+    XChain env A m (m.onTimeout env s h r).2 (m.onTimeout env s h r).1 ∧ MInv env (m.onTimeout env s h r).1 ∧
       (m.onTimeout env s h r).1.isHeightStarted = true := by
   unfold Machine.onTimeout
   cases s with
@@ -555,9 +595,9 @@ theorem onTimeout_chain (env : Env) (m : Machine) (s : Step) (h : Height) (r : R
       simp only [Bool.and_eq_true, beq_iff_eq] at hc
       have hcore := sendPrevote_core env m none
       refine ⟨?_, sendPrevote_inv env m none hi, by simpa [Machine.setStepAndSendPrevote] using hs⟩
-      have h2 : XMicro env m [(m.setStepAndSendPrevote env none).2] (m.setStepAndSendPrevote env none).1 := by
-        rw [hcore.2.2]; exact XMicro.prevote m _ none hc.2 trivial hcore.2.1 hcore.1
-      exact XChain.cons (silent_wal env m _) (SC.same rfl) (XChain.one h2 (SC.started hs))
+      have h2 : XMicro env A m [(m.setStepAndSendPrevote env none).2] (m.setStepAndSendPrevote env none).1 := by
+        rw [hcore.2.2.1]; exact XMicro.prevote m _ none hc.2 trivial hcore.2.1 hcore.2.2.2 hcore.1
+      exact XChain.cons (silent_wal (A := A) env m _) (SC.same rfl) (XChain.one h2 (SC.started hs))
     · exact ⟨XChain.nil m, hi, hs⟩
   | prevote =>
     simp only
@@ -566,9 +606,9 @@ theorem onTimeout_chain (env : Env) (m : Machine) (s : Step) (h : Height) (r : R
       simp only [Bool.and_eq_true, beq_iff_eq] at hc
       have hcore := sendPrecommit_core env m none
       refine ⟨?_, sendPrecommit_inv env m none hi, by simpa [Machine.setStepAndSendPrecommit] using hs⟩
-      have h2 : XMicro env m [(m.setStepAndSendPrecommit env none).2] (m.setStepAndSendPrecommit env none).1 := by
-        rw [hcore.2.2]; exact XMicro.precommitNil m _ hc.2 hcore.2.1 hcore.1
-      exact XChain.cons (silent_wal env m _) (SC.same rfl) (XChain.one h2 (SC.started hs))
+      have h2 : XMicro env A m [(m.setStepAndSendPrecommit env none).2] (m.setStepAndSendPrecommit env none).1 := by
+        rw [hcore.2.2.1]; exact XMicro.precommitNil m _ hc.2 hcore.2.1 hcore.2.2.2 hcore.1
+      exact XChain.cons (silent_wal (A := A) env m _) (SC.same rfl) (XChain.one h2 (SC.started hs))
     · exact ⟨XChain.nil m, hi, hs⟩
   | precommit =>
     simp only
@@ -576,39 +616,48 @@ theorem onTimeout_chain (env : Env) (m : Machine) (s : Step) (h : Height) (r : R
     · rename_i hc
       unfold Machine.isSameHeightAndRound at hc
       simp only [Bool.and_eq_true, beq_iff_eq] at hc
-      have := startRound_chain env m (r + 1) (by omega) hs hi
-      exact ⟨XChain.cons (silent_wal env m _) (SC.same rfl) this.1, this.2, by rw [startRound_started]; exact hs⟩
+      have := startRound_chain (A := A) env m (r + 1) (by omega) hs hi
+      exact ⟨XChain.cons (silent_wal (A := A) env m _) (SC.same rfl) this.1, this.2, by rw [startRound_started]; exact hs⟩
     · exact ⟨XChain.nil m, hi, hs⟩
 
 theorem processTimeout_chain (env : Env) (m : Machine) (s : Step) (h : Height) (r : Round)
     (hs : m.isHeightStarted = true) (hi : MInv env m) :
-    XChain env m (m.processTimeout env s h r).2 (m.processTimeout env s h r).1 ∧
+    XChain env A m (m.processTimeout env s h r).2 (m.processTimeout env s h r).1 ∧
       MInv env (m.processTimeout env s h r).1 := by
   unfold Machine.processTimeout
-  have h1 := onTimeout_chain env m s h r hs hi
+  have h1 := onTimeout_chain (A := A) env m s h r hs hi
   generalize m.onTimeout env s h r = res at h1
   obtain ⟨m', acts⟩ := res
   simp only at h1 ⊢
-  obtain ⟨out, e, h2, h3⟩ := processLoop_chain env m' acts none h1.2.2 h1.2.1
+  obtain ⟨out, e, h2, h3⟩ := processLoop_chain (A := A) env m' acts none h1.2.2 h1.2.1
   rw [e]
   exact ⟨XChain.append h1.1 h2, h3⟩
 
-/-- The driver's discipline for one input: timeouts are only delivered to a started height
-(`driver.listen` calls `ProcessStart(0)` right after construction and after every commit, before
-anything else). -/
+/-- The driver's discipline for one input: timeouts are only delivered to a started height and a
+height is started in a round `≥ 0` (`driver.listen` calls `ProcessStart(0)` right after construction
+and after every commit, before anything else). -/
 def InputOK (m : Machine) : Input → Prop
   | .timeout _ _ _ => m.isHeightStarted = true
+  | .start r => 0 ≤ r
   | _ => True
 
+/-- The vote-counter changes an input may cause by being stored. -/
+def RecvOf : Input → VCChange → Prop
+  | .proposal p, c => c = .proposal p
+  | .prevote v, c => c = .vote v .prevote
+  | .precommit v, c => c = .vote v .precommit ∨ c = .futureQ v.height v.round v.id
+  | _, _ => False
+
 /-- **Every (disciplined) input is a chain of micro-steps.** -/
-theorem step_chain (env : Env) (m : Machine) (i : Input) (hok : InputOK m i) (hi : MInv env m) :
-    XChain env m (m.step env i).2 (m.step env i).1 ∧ MInv env (m.step env i).1 := by
+theorem step_chain (env : Env) (m : Machine) (i : Input) (hA : ∀ c, RecvOf i c → A c) (hok : InputOK m i)
+    (hi : MInv env m) :
+    XChain env A m (m.step env i).2 (m.step env i).1 ∧ MInv env (m.step env i).1 := by
   cases i with
-  | start r => exact processStart_chain env m r hi
-  | proposal p => exact processProposal_chain env m p hi
-  | prevote v => exact processPrevote_chain env m v hi
-  | precommit v => exact processPrecommit_chain env m v hi
-  | timeout s h r => exact processTimeout_chain env m s h r hok hi
+  | start r => exact processStart_chain (A := A) env m r hok hi
+  | proposal p => exact processProposal_chain (A := A) env m p (hA _ rfl) hi
+  | prevote v => exact processPrevote_chain (A := A) env m v (hA _ rfl) hi
+  | precommit v => exact processPrecommit_chain (A := A) env m v (hA _ (Or.inl rfl)) (hA _ (Or.inr rfl)) hi
+  | timeout s h r => exact processTimeout_chain (A := A) env m s h r hok hi
 
 theorem new_MInv (env : Env) (node : Addr) (h : Height) : MInv env (Machine.new env node h) :=
   ⟨new_inv env h, rfl⟩
